@@ -35,14 +35,14 @@ PROFILES = {
     "C04": [("visibility", 4), ("recursion", 1), ("mix", 1)],
     "C05": [("visibility", 2), ("mix", 2), ("recursion", 1), ("lifetime", 1), ("sharedkey", 1)],
     "C06": [("sharedkey", 4), ("lifetime", 2), ("mix", 1), ("wr", 1)],
-    "C07": [("sharedkey", 3), ("lifetime", 3), ("mix", 1), ("removal2", 1)],
-    "C08": [("removal2", 4), ("removal", 1), ("lifetime", 1), ("mix", 1)],
+    "C07": [("sharedkey", 3), ("lifetime", 3), ("dsp", 2), ("mix", 1), ("removal2", 1)],
+    "C08": [("removal2", 4), ("dsp", 3), ("removal", 1), ("lifetime", 1), ("mix", 1)],
     "C09": [("recursion", 3), ("big", 1), ("mix", 1)],
     "C10": [("signals", 3), ("lifetime", 1)],
     "C11": [("recursion", 2), ("mix", 1), ("lifetime", 1), ("removal", 1)],
     "C12": [("recursion", 3), ("visibility", 2), ("mix", 1)],
     "C13": [("recursion", 2), ("mix", 1), ("lifetime", 1)],
-    "C14": [("access", 3), ("mix", 1)],
+    "C14": [("access2", 3), ("access", 2), ("mix", 1)],
     "C15": [("once2", 4), ("once", 1), ("sharedkey", 1), ("mix", 1)],
     "C16": [("ewr", 5), ("wr", 1), ("mix", 1)],
     "C17": [("syscall", 1)],
@@ -55,7 +55,7 @@ N_QUICK = 240
 N_THOROUGH = 6000
 
 def project(pid, lines):
-    keep = set(PROJ[pid]) | {"top", "end", "panic", "<timeout>", "fuel-out", "parse-error", "unsupported", "unsupported-in-exclusive"}
+    keep = set(PROJ[pid]) | {"top", "end", "panic", "<timeout>", "fuel-out", "parse-error", "unsupported", "unsupported-in-exclusive", "runaway"}
     out = []
     for l in lines:
         t = l.split(" ", 1)[0]
